@@ -135,13 +135,71 @@ def dimension_obligations(rep, name):
     return fails
 
 
+def level1_obligations(rep):
+    """getBH_level1: the observer reaches the field function as a well-dimensioned length (degree 1: no absolute
+    quantisation / offsets on the way into the source frame) and the result keeps the field function's degree"""
+    import magpylib._src.fields.field_wrap_BH as FW
+    from engine.rebind import rebind
+    from engine.rowgen import G, NPG, asreal, g_all, g_any, g_len, sym_rows, uf, _obj_terms
+
+    fn = describe(FW.getBH_level1)
+    rep.function(fn)
+    fails = []
+
+    class Ori:
+        def __init__(self, q):
+            self.q = q
+
+        def apply(self, v, inverse=False):
+            qs = [asreal(t) for t in self.q.blocks[0].flat]
+            vs = [asreal(t) for t in v.blocks[0].flat]
+            nm = "rotapplyinv" if inverse else "rotapply"
+            return G([_obj_terms([uf(f"{nm}_{j}", *qs, *vs) for j in range(3)])], 0, v.tag)
+
+    def field_func(field, observers, **kw):
+        vs = [asreal(t) for t in observers.blocks[0].flat]
+        return G([_obj_terms([uf(f"anyfield_{j}", *vs) for j in range(3)])], 0, observers.tag)
+
+    ns = rebind(FW, dict(np=NPG, any=g_any, all=g_all, len=g_len))
+    from engine.symex import Ctx, explore
+
+    for k_out, label in ((0, "magnet"), (-1, "current"), (-3, "dipole")):
+        def body():
+            Ctx.cur.pc.append(NROWS >= 1)
+            return ns["getBH_level1"](field_func=field_func, field="B", position=sym_rows("position", (3,)), orientation=Ori(sym_rows("quat", (4,))),
+                                      observers=sym_rows("observers", (3,)), in_out="auto")
+
+        for i, (ctx, (kind, res)) in enumerate(explore(body), 1):
+            nm = f"getBH_level1.observer-enters-field-function-as-length,result-degree-{k_out}({label})[path{i}]"
+            if kind != "ok":
+                rep.obligation(nm, {"status": "unknown", "backend": "symex", "time_s": 0, "reason": str(res)[:200]}, fn["function"], "post")
+                continue
+            vd = {"quat_%d" % j: Fraction(0) for j in range(4)}
+            vd.update({f"position_{j}": Fraction(1) for j in range(3)})
+            vd.update({f"observers_{j}": Fraction(1) for j in range(3)})
+            dc = DimCheck(vd, {"anyfield": ([Fraction(1)] * 3, Fraction(k_out))})
+            try:
+                degs = [dc.deg(asreal(t)) for t in res.blocks[0].flat] + [dc.deg(t) for t in ctx.pc]
+                viol = list(dc.violations)
+                if any(d not in (ANY, Fraction(k_out)) for d in degs[:3]):
+                    viol.append((f"result degree {[str(d) for d in degs[:3]]}", "", []))
+                st = "discharged" if not viol else "refuted"
+            except DimError as e:
+                st, viol = "unknown", [(str(e), "", [])]
+            rep.obligation(nm, {"status": st, "backend": f"dimension-calculus({dc.nodes} nodes)", "time_s": 0, "reason": viol[0][0] if viol else ""}, fn["function"], "post")
+            if st == "refuted":
+                fails.append(dict(name=nm, wrapper="getBH_level1", why="; ".join(f"{v[0]} @ {v[1][:120]}" for v in viol[:3])))
+    return fails
+
+
 # ------------------------------------------------------------------------------------------------
 def native_scale(cls_name, s, exc, seed):
     """real library: a configuration of class cls_name evaluated in two length units; returns message or None"""
     import magpylib as magpy
 
     rng = np.random.default_rng(seed)
-    pol = rng.normal(size=3) * exc
+    pol1 = rng.normal(size=3)
+    pol = pol1 * exc
     obs = rng.normal(size=(6, 3)) * 1.7
 
     def mk(sc):
@@ -178,6 +236,18 @@ def native_scale(cls_name, s, exc, seed):
                 ref = np.abs(f1).max() + 1e-300
                 if not np.allclose(f2 / s**k, f1, rtol=1e-7, atol=1e-9 * ref):
                     return f"{cls_name} get{fld}: scale {s:g}, excitation {exc:g}: {f2[0] / s**k} vs {f1[0]}"
+            if s == 1.0 or exc != 1:
+                # proportionality with the excitation: same geometry, excitation 1 vs exc
+                pol_keep, pol = pol, pol1
+                exc_keep, exc = exc, 1.0
+                u, _ = mk(1.0)
+                pol, exc = pol_keep, exc_keep
+                for fld in "BH":
+                    fu = getattr(magpy, "get" + fld)(u, obs)
+                    fe = getattr(magpy, "get" + fld)(a, obs)
+                    ref = np.abs(fu).max() + 1e-300
+                    if not np.allclose(fe / exc, fu, rtol=1e-7, atol=1e-9 * ref):
+                        return f"{cls_name} get{fld}: field not proportional to the excitation at magnitude {exc:g}: {fe[0] / exc} vs {fu[0]}"
             j1, j2 = magpy.getJ(a, obs), magpy.getJ(b, obs * s)
             if not np.allclose(j1, j2, rtol=1e-12, atol=0):
                 return f"{cls_name} getJ (inside/outside decision) changes with the unit: scale {s:g}"
@@ -204,6 +274,7 @@ def main(tier, seed):
     rep.explanation = "dimension-calculus type derivation over the term DAG of every path of every wrapper (length and excitation gradings)"
     names = list(WRAPPERS)
     tasks = [(nm, (lambda r, nm=nm: dimension_obligations(r, nm))) for nm in names]
+    tasks.append(("getBH_level1", level1_obligations))
     fails = run_parallel(rep, tasks)
     known = {k["id"]: k for k in load_known() if k["property"] == PID and k.get("status") == "known"}
     for rid in sorted({f["known_region"] for f in fails if f.get("known_region")}):
@@ -234,7 +305,7 @@ def main(tier, seed):
         if f.get("known_region"):
             continue
         cls = f["wrapper"].split("(")[0]
-        hit = next((b for b in bad if b[0] == cls), None)
+        hit = next((b for b in bad if b[0] == cls or cls == "getBH_level1"), None)
         if hit:
             rep.violation(f["name"], {"why": f["why"], "native_result": hit[3], "script": REPLAY.format(cls=hit[0], s=hit[1], exc=hit[2], seed=seed)})
         else:
